@@ -18,44 +18,36 @@
 //               output equals the same fold (a missed tick leaves a stale value there).
 #include "hk_ho.h"
 
-#ifndef COLL
-#define COLL 0
+// One binary covers several configurations (enumerated first, so shards split on them):
+//   {COLL, NKEYS, BULK, NCYC, EXTRA_OPS, ORDERS}
+//   COLL      0 TSD, 1 fixed TSL (size TSLN = NKEYS+BULK), 2 dynamic TSL
+//   NKEYS     individually scripted keys / list elements;  BULK  further keys acted on as one group
+//   NCYC      engine cycles;  EXTRA_OPS (TSD) 1: also phantom add (key without value) and add+remove in one cycle
+//   ORDERS    1: keys applied ascending; 2: also descending (enumerated)
+#ifndef CONFIGS
+#define CONFIGS {0, 3, 0, 3, 0, 2}, {0, 2, 4, 3, 0, 1}, {0, 2, 0, 3, 1, 1}, {1, 3, 2, 3, 0, 1}, {2, 3, 2, 3, 0, 1}
 #endif
-#ifndef NKEYS       // individually scripted keys / list elements
-#define NKEYS 3
-#endif
-#ifndef BULK        // further keys acted on as one group
-#define BULK 0
-#endif
-#ifndef NCYC
-#define NCYC 3
-#endif
-#ifndef EXTRA_OPS   // TSD only. 1: also phantom add (key without value) and add+remove in one cycle
-#define EXTRA_OPS 0
+#ifndef TSLN        // size of the fixed TSL (every COLL=1 configuration must have NKEYS+BULK == TSLN)
+#define TSLN 5
 #endif
 #ifndef ZMODES      // number of zero modes explored: 1 = none, 2 = +constant, 3 = +re-ticking
 #define ZMODES 3
-#endif
-#ifndef ORDERS      // 1: keys applied ascending; 2: also descending (enumerated)
-#define ORDERS 1
 #endif
 
 using namespace hk;
 
 namespace {
 using U = std::uint64_t;
-constexpr int NK = NKEYS + BULK;
-#if COLL == 0
-using CollSchema = TSD<Int, TS<Int>>;
-#elif COLL == 1
-using CollSchema = TSL<TS<Int>, NK>;
-#else
-using CollSchema = TSL<TS<Int>>;
-#endif
+struct Cfg { int coll, nkeys, bulk, ncyc, extra, orders; };
+constexpr Cfg CFGS[] = {CONFIGS};
+constexpr int NCFG = sizeof(CFGS) / sizeof(CFGS[0]);
+constexpr int MAXK = 16;
+Cfg G{};
+int NKEYS = 0, BULK = 0, NK = 0, NCYC = 0;
 // ---- model ----
-bool m_live[NK];     // key present with a value
-bool m_phantom[NK];  // key present without a value
-Int m_val[NK];
+bool m_live[MAXK];     // key present with a value
+bool m_phantom[MAXK];  // key present without a value
+Int m_val[MAXK];
 int g_zmode = 0;     // 0 none, 1 constant, 2 re-ticking
 bool m_zero_valid = false;
 Int m_zero = 0;
@@ -77,64 +69,60 @@ struct AddInts {
 
 // Scripted collection source: decides its actions lazily, cycle by cycle (so that symx shares the
 // whole prefix of the run between scripts).
-struct CollSrc {
+template <class Schema, bool DICT> struct CollSrc {
     static constexpr auto name = "coll_src";
     static constexpr bool schedule_on_start = true;
-    using OutT = Out<CollSchema>;
+    using OutT = Out<Schema>;
     static void set_key(int k, const OutT &out) {
         Int v = verif_i64("val");
         out[k].set(v);
         m_live[k] = true; m_phantom[k] = false; m_val[k] = v;
     }
-#if COLL == 0
     static void remove_key(int k, const OutT &out) {
-        for (int j = 0; j < k; j++) r_hole |= m_live[j];  // a lower key stays: the last dense leaf moves into the hole
-        (void)out.erase(Int{k});
-        m_live[k] = false; m_phantom[k] = false;
-        r_removed = true;
+        if constexpr (DICT) {
+            for (int j = 0; j < k; j++) r_hole |= m_live[j];  // a lower key stays: another dense leaf moves into the hole
+            (void)out.erase(Int{k});
+            m_live[k] = false; m_phantom[k] = false;
+            r_removed = true;
+        }
     }
     static void apply_key(int k, const OutT &out) {
-        bool present = m_live[k] || m_phantom[k];
-        int nopt = present ? 4 : (EXTRA_OPS ? 4 : 2);
-        int a = verif_choice("act", nopt);
-        if (a == 0) return;
-        if (!present) {
-            if (a == 1) set_key(k, out);
-            else if (a == 2) {  // phantom: key without a value
-                (void)out[Int{k}];
-                m_phantom[k] = true;
-                r_phantom = true;
-            } else {  // add + remove in one cycle (cancelled by the slot protocol)
-                Int v = verif_i64("val");
-                out[Int{k}].set(v);
-                (void)out.erase(Int{k});
+        if constexpr (!DICT) {
+            if (verif_choice("act", 2) == 1) set_key(k, out);
+        } else {
+            bool present = m_live[k] || m_phantom[k];
+            int nopt = present ? 4 : (G.extra ? 4 : 2);
+            int a = verif_choice("act", nopt);
+            if (a == 0) return;
+            if (!present) {
+                if (a == 1) set_key(k, out);
+                else if (a == 2) {  // phantom: key without a value
+                    (void)out[Int{k}];
+                    m_phantom[k] = true;
+                    r_phantom = true;
+                } else {  // add + remove in one cycle (netted by the slot protocol)
+                    Int v = verif_i64("val");
+                    out[Int{k}].set(v);
+                    (void)out.erase(Int{k});
+                }
+                return;
             }
-            return;
-        }
-        if (a == 1) set_key(k, out);          // update (or first value of a phantom key)
-        else if (a == 2) remove_key(k, out);  // remove
-        else {                                // remove + re-add in the same cycle
-            remove_key(k, out);
-            set_key(k, out);
-            r_readd = true;
+            if (a == 1) set_key(k, out);          // update (or first value of a phantom key)
+            else if (a == 2) remove_key(k, out);  // remove
+            else {                                // erase + set in the same cycle (netted: an update)
+                remove_key(k, out);
+                set_key(k, out);
+                r_readd = true;
+            }
         }
     }
     static void apply_bulk(const OutT &out) {
         if (BULK == 0) return;
         bool present = m_live[NKEYS];
-        int a = verif_choice("bulk", present ? 3 : 2);
+        int a = verif_choice("bulk", (DICT && present) ? 3 : 2);
         if (a == 1) for (int k = NKEYS; k < NK; k++) set_key(k, out);
         if (a == 2) for (int k = NK - 1; k >= NKEYS; k--) remove_key(k, out);
     }
-#else
-    static void apply_key(int k, const OutT &out) {
-        if (verif_choice("act", 2) == 1) set_key(k, out);
-    }
-    static void apply_bulk(const OutT &out) {
-        if (BULK == 0) return;
-        if (verif_choice("bulk", 2) == 1) for (int k = NKEYS; k < NK; k++) set_key(k, out);
-    }
-#endif
     static void eval(NodeScheduler s, State<Int> n, OutT out) {
         Int c = n.get();
         if (g_order == 0) { for (int k = 0; k < NKEYS; k++) apply_key(k, out); apply_bulk(out); }
@@ -219,11 +207,14 @@ struct Top {
     static constexpr auto name = "top";
     static void compose(Wiring &w) {
         auto z = wire<ZeroSrc>(w);
-        auto d = wire<CollSrc>(w);
+        WiringPortRef d;
+        if (G.coll == 0) d = wire<CollSrc<TSD<Int, TS<Int>>, true>>(w).erased();
+        else if (G.coll == 1) d = wire<CollSrc<TSL<TS<Int>, TSLN>, false>>(w).erased();
+        else d = wire<CollSrc<TSL<TS<Int>>, false>>(w).erased();
         auto clk = wire<Clock>(w);
         std::optional<WiringPortRef> zero;
         if (g_zmode != 0) zero = z.erased();
-        WiringPortRef r = ho::wire_reduce_tsd(w, Scalar<"func", WiredFn>{FnN<AddInts, 2>::make()}, d.erased(), zero);
+        WiringPortRef r = ho::wire_reduce_tsd(w, Scalar<"func", WiredFn>{FnN<AddInts, 2>::make()}, d, zero);
         Port<TS<Int>> rp{w, r};
         auto t = wire<Delivered>(w, rp);
         wire<Checker>(w, clk, rp, t);
@@ -233,8 +224,11 @@ struct Top {
 
 extern "C" int harness_main() {
     register_ho_scalars();
+    G = CFGS[NCFG > 1 ? verif_choice("cfg", NCFG) : 0];
+    NKEYS = G.nkeys; BULK = G.bulk; NK = NKEYS + BULK; NCYC = G.ncyc;
+    if (NK > MAXK || (G.coll == 1 && NK != TSLN)) { verif_fail("C11.harness_configuration"); return 0; }
     g_zmode = verif_choice("zmode", ZMODES);
-    g_order = ORDERS > 1 ? verif_choice("order", ORDERS) : 0;
+    g_order = G.orders > 1 ? verif_choice("order", G.orders) : 0;
     run_sim(build_graph<Top>(), MIN_ST, MIN_ST + TimeDelta{NCYC + 2});
 
     verif_assert(g_checks == NCYC, "C11.checker_ran_every_cycle");
